@@ -7,6 +7,8 @@ package provider
 import (
 	"bytes"
 	"compress/flate"
+	"compress/gzip"
+	"compress/zlib"
 	"crypto"
 	"crypto/rsa"
 	"crypto/sha1"
@@ -354,6 +356,22 @@ func vrtB64(s string) string { return base64.StdEncoding.EncodeToString([]byte(s
 func vrtDeflate(s string) string {
 	var buf bytes.Buffer
 	w, _ := flate.NewWriter(&buf, 9)
+	w.Write([]byte(s))
+	w.Close()
+	return buf.String()
+}
+
+func vrtZlib(s string) string {
+	var buf bytes.Buffer
+	w := zlib.NewWriter(&buf)
+	w.Write([]byte(s))
+	w.Close()
+	return buf.String()
+}
+
+func vrtGzip(s string) string {
+	var buf bytes.Buffer
+	w := gzip.NewWriter(&buf)
 	w.Write([]byte(s))
 	w.Close()
 	return buf.String()
@@ -743,6 +761,11 @@ func vrtIdPKeyPair(name string) ([]byte, *rsa.PrivateKey) {
 		return []byte("not a certificate: " + vrtStr(name+".cert")), key
 	}
 	return vrtMustB64(vrtCertIdPRSA), key
+}
+
+// vrtIdPOtherKeyPair is a second, different certificate / key pair of the IdP.
+func vrtIdPOtherKeyPair(name string) ([]byte, *rsa.PrivateKey) {
+	return vrtMustB64(vrtCertIdPOtherRSA), vrtRSAKey(vrtKeyIdPOtherRSA)
 }
 
 func vrtIdPSigned() int { return 0 }
